@@ -317,6 +317,24 @@ pub fn family_single(n: usize, leaves: &[&str], max_src: usize) -> Family
     Family { name: format!("{} single-target rules, sources from all targets + {:?}, at most {} sources", n, leaves, max_src), targets, choices: vec![subs; n], goals, orders }
 }
 
+/// n single-target rules; rule i's sources: every subset of the *other* rules' targets (the
+/// leaf `z` when the subset is empty) — every labelled digraph without self loops on n nodes
+pub fn family_digraphs(n: usize) -> Family
+{
+    let targets: Vec<Vec<String>> = (0..n).map(|i| vec![format!("t{}", i)]).collect();
+    let mut choices = vec![];
+    for i in 0..n
+    {
+        let others: Vec<String> = (0..n).filter(|j| *j != i).map(|j| format!("t{}", j)).collect();
+        let mut subs: Vec<Vec<String>> = vec![vec!["z".to_string()]];
+        subs.extend(subsets_nonempty(&others, n));
+        choices.push(subs);
+    }
+    let mut goals: Vec<Option<String>> = vec![None];
+    goals.extend((0..n).map(|i| Some(format!("t{}", i))));
+    Family { name: format!("{} single-target rules, every digraph without self loops", n), targets, choices, goals, orders: vec![(0..n).rev().collect()] }
+}
+
 /// like family_single but rule 0 (named to sort in the middle) has two targets
 pub fn family_multi(n: usize, leaves: &[&str], which: usize) -> Family
 {
@@ -495,6 +513,7 @@ pub fn run(rep: &mut Report, tier: &str)
     for which in 0..3 { fams.push(family_multi(3, &["z"], which)); }
     fams.extend(family_dup(2));
     fams.extend(family_dup(3));
+    fams.push(family_digraphs(5));
     if thorough
     {
         fams.push(family_single(4, &["a", "z"], 99));
